@@ -76,7 +76,7 @@ fn snapshot(root: &Path, old: &[u8], new: &[u8]) -> Value {
 }
 
 #[derive(Clone, Debug)]
-enum Fault { Clean, BitFlip, Oversize, TransportErr(usize), Truncated }
+enum Fault { Clean, BitFlip, Oversize, TransportErr(usize), Truncated, Nothing }
 
 #[tokio::main(flavor = "current_thread")]
 async fn main() {
@@ -176,7 +176,7 @@ async fn main() {
             let dangerous = tn.resolved().starts_with('/') && !tn.resolved().contains(&escape);
             let prefix_digest = dangerous || r.chance(1, 2);
             let preexisting = r.chance(1, 2);
-            let fault = match r.below(8) { 0 => Fault::BitFlip, 1 => Fault::Oversize, 2 => Fault::TransportErr(r.below(3) as usize), 3 => Fault::Truncated, _ => Fault::Clean };
+            let fault = match r.below(8) { 0 => Fault::BitFlip, 1 => Fault::Oversize, 2 => Fault::TransportErr(r.below(3) as usize), 3 => Fault::Truncated, 4 => Fault::Nothing, _ => Fault::Clean };
             // sandbox: sbx/a/b/out is the output directory, sbx/other is a bystander
             let _ = std::fs::remove_dir_all(sbx.join("a"));
             let _ = std::fs::remove_dir_all(sbx.join("other"));
@@ -200,6 +200,8 @@ async fn main() {
                 Fault::BitFlip => { let p = r.below(data.len() as u64) as usize; data[p] ^= 4; }
                 Fault::Oversize => data.extend_from_slice(b"+more"),
                 Fault::Truncated => { data.truncate(data.len() / 2); }
+                // the stream ends before any chunk
+                Fault::Nothing => data.clear(),
                 _ => {}
             }
             let step = (data.len() / 3).max(1);
@@ -235,7 +237,7 @@ async fn main() {
                 "chunks": chunk_model, "served": served});
             let imp = json!({"res": match &res { Ok(()) => "ok".to_string(), Err(e) => format!("err:{}", e.to_string().chars().take(40).collect::<String>()) },
                 "before": before, "snapshots": Value::Array(snaps.lock().unwrap().clone()), "after": after, "escaped": escaped});
-            let class = format!("save-{}{}", match fault { Fault::Clean => "clean", Fault::BitFlip => "bitflip", Fault::Oversize => "oversize", Fault::TransportErr(_) => "transport-error", Fault::Truncated => "truncated" }, if pre_ok { "-preexisting" } else { "" });
+            let class = format!("save-{}{}", match fault { Fault::Clean => "clean", Fault::BitFlip => "bitflip", Fault::Oversize => "oversize", Fault::TransportErr(_) => "transport-error", Fault::Truncated => "truncated", Fault::Nothing => "no-chunk" }, if pre_ok { "-preexisting" } else { "" });
             out.case_nt(&class, input, imp, true);
         }
     }
